@@ -11,6 +11,6 @@ CONSTANTS
   IdSeqs <- IdSeqsMC
   Warm = 0
   Variant = "code"
-  Check = {"snapshot"}
+  Check = {"snapshot", "snapdata"}
 POSTCONDITION Accepted
 CHECK_DEADLOCK FALSE
